@@ -30,6 +30,11 @@ class BusySpin(BaseException):
     """raised inside a controlled thread that keeps reading the clock without ever blocking"""
 
 
+class Deadlock(BaseException):
+    """raised inside a controlled thread that acquires a non-reentrant lock it already holds: with a real lock the thread would
+    never go on; recorded like an escaped exception (the thread is dead for the rest of the execution)"""
+
+
 class Killed(BaseException):
     """raised inside a parked controlled thread when its world is shut down"""
 
@@ -161,6 +166,7 @@ class VThread:
         if CUR is None:
             raise HarnessError("Thread.start outside a world")
         self.lt = CUR.spawn(self.target, self.args, self.kwargs, self.name or 'thr', kind='J')
+        self.lt.vthread = self
 
     def join(self, timeout=None):
         CUR.join(self.lt)
@@ -192,7 +198,9 @@ class VLock:
             if self.reentrant:
                 self.count += 1
                 return True
-            raise HarnessError("a thread acquires a non-reentrant lock it already holds (deadlock)")
+            if me is not None:
+                raise Deadlock()
+            raise Runaway("the call acquires a non-reentrant lock it already holds (deadlock)")
         if self.owner is not _FREE:
             if not blocking:
                 return False
@@ -250,6 +258,22 @@ class VEvent:
         return w.wait_until(lambda: self.flag, timeout if timeout is not None else 1e9)
 
 
+def _current_thread():
+    """threading.current_thread() of the library: the Thread object the current logical thread was started through (the job
+    thread), a stand-in per harness-spawned thread, the real object on the scheduler thread"""
+    w = CUR
+    lt = None if w is None else w.cur
+    if lt is None:
+        return _th.current_thread()
+    vt = getattr(lt, 'vthread', None)
+    if vt is None:
+        vt = lt.vthread = VThread(name=lt.name)
+        vt.lt = lt
+    return vt
+
+
+vthreading.current_thread = _current_thread
+vthreading.currentThread = _current_thread
 vthreading.Thread = VThread
 vthreading.Lock = VLock
 vthreading.RLock = VRLock
@@ -292,7 +316,7 @@ class Chooser:
 # --------------------------------------------------------------------------- world
 class LT:
     __slots__ = ('name', 'kind', 'sem', 'done', 'exc', 'exc_type', 'os', 'wake_at', 'wait_q',
-                 'pred', 'reads', 'spun', 'blocks', 'last_timeout', 'tracer', 'result', 'eps')
+                 'pred', 'reads', 'spun', 'blocks', 'last_timeout', 'tracer', 'result', 'eps', 'vthread')
 
 
 class World:
@@ -352,6 +376,7 @@ class World:
         lt.last_timeout = None
         lt.result = None
         lt.eps = self.eps_wake
+        lt.vthread = None
         lt.tracer = self.trace_factory(lt, len(self.threads)) if self.trace_factory else None
 
         def body():
@@ -373,6 +398,9 @@ class World:
             except BusySpin:
                 lt.exc = 'BusySpin'
                 lt.exc_type = 'BusySpin'
+            except Deadlock:
+                lt.exc = 'Deadlock (the thread acquires a non-reentrant lock it already holds):\n' + traceback.format_exc()
+                lt.exc_type = 'Deadlock'
             except BaseException as e:          # noqa: the thread dies, as it would in production
                 lt.exc = traceback.format_exc()
                 lt.exc_type = type(e).__name__
